@@ -196,7 +196,15 @@ func checkSCT(t *testing.T, c Case) harness.Verdict {
 	if err := ctutil.VerifySCT(pub, p.chainF, anchor, true); err != nil {
 		v.Failf("verify-embedded-rejected", "VerifySCT(embedded) rejects the SCT the log signed over E: %v", err)
 	}
-	if err := ctutil.VerifySCT(pub, p.chainP, anchor, false); err != nil {
+	want := rfc6962.LeafHash(expectedLeaf(w, c.Timestamp))
+	hP, hPerr := ctutil.LeafHash(p.chainP, anchor, false)
+	precertRefused := c.PoisonNonCrit && hPerr != nil // refusing a non-critical poison outright is fine; silent disagreement is not
+	if precertRefused {
+		v.Class("noncritical-poison-refused:leafhash")
+	} else if hPerr != nil || hP != want {
+		v.Failf("leafhash-precert", "LeafHash(precert) = %x (%v), want %x", hP, hPerr, want)
+	}
+	if err := ctutil.VerifySCT(pub, p.chainP, anchor, false); err != nil && !precertRefused {
 		v.Failf("verify-precert-rejected", "VerifySCT(precert chain) rejects the SCT the log signed over E: %v", err)
 	}
 	if allWF {
@@ -207,12 +215,8 @@ func checkSCT(t *testing.T, c Case) harness.Verdict {
 			}
 		}
 	}
-	want := rfc6962.LeafHash(expectedLeaf(w, c.Timestamp))
 	if h, err := ctutil.LeafHash(p.chainF, anchor, true); err != nil || h != want {
 		v.Failf("leafhash-embedded", "LeafHash(embedded) = %x (%v), want %x", h, err, want)
-	}
-	if h, err := ctutil.LeafHash(p.chainP, anchor, false); err != nil || h != want {
-		v.Failf("leafhash-precert", "LeafHash(precert) = %x (%v), want %x", h, err, want)
 	}
 
 	// another timestamp, same signature
